@@ -28,26 +28,35 @@ I32, U32, I64, U64 = "i32", "u32", "i64", "u64"
 RANGE = {I32: (-2**31, 2**31 - 1), U32: (0, 2**32 - 1), I64: (-2**63, 2**63 - 1), U64: (0, 2**64 - 1)}
 
 
+CT = {"int": I32, "unsigned int": U32, "long": I64, "unsigned long": U64, "long long": I64, "unsigned long long": U64}
+
+
 def ladder(decimal, suffix):
+    """the C++ literal typing sequence [lex.icon] as exact C++ types"""
     s = suffix.lower()
     u = "u" in s
     ll = "ll" in s
     l = ("l" in s) and not ll
     if ll:
-        return [U64] if u else ([I64] if decimal else [I64, U64])
+        return ["unsigned long long"] if u else (["long long"] if decimal else ["long long", "unsigned long long"])
     if l:
-        return [U64] if u else ([I64] if decimal else [I64, U64])
+        return ["unsigned long", "unsigned long long"] if u else (["long", "long long"] if decimal else ["long", "unsigned long", "long long", "unsigned long long"])
     if u:
-        return [U32, U64]
-    return [I32, I64] if decimal else [I32, U32, I64, U64]
+        return ["unsigned int", "unsigned long", "unsigned long long"]
+    return ["int", "long", "long long"] if decimal else ["int", "unsigned int", "long", "unsigned long", "long long", "unsigned long long"]
 
 
-def expected_int(value, decimal, suffix):
+def expected_ctype(value, decimal, suffix):
     for t in ladder(decimal, suffix):
-        lo, hi = RANGE[t]
+        lo, hi = RANGE[CT[t]]
         if lo <= value <= hi:
             return t
     return None  # ill-formed in C++ (no type can hold it): outside the quantifier
+
+
+def expected_int(value, decimal, suffix):
+    t = expected_ctype(value, decimal, suffix)
+    return None if t is None else CT[t]
 
 
 def spell(value, base):
@@ -76,7 +85,7 @@ def int_grid():
         for variant in ({text, text.replace("0x", "0X"), text.replace("0b", "0B"), text.upper() if base == 16 else text}):
             if variant.startswith("0X") and base != 16:
                 continue
-            yield variant + sfx, v, t
+            yield variant + sfx, v, t, expected_ctype(v, base == 10, sfx)
 
 
 # ---- reference string decoder -----------------------------------------------------------------------------------
@@ -304,6 +313,8 @@ def check_int(c, ctx):
     want = "%s:%d" % (c["type"], c["value"])
     if res["res"]["r"] != want:
         raise Violation("integer literal %s evaluates to %s, C++ says %s" % (c["text"], res["res"]["r"], want), {})
+    if c.get("ctype") and res["res"].get("ctype") != c["ctype"]:
+        raise Violation("integer literal %s has type %s, the first type of the C++ sequence able to hold it is %s" % (c["text"], res["res"].get("ctype"), c["ctype"]), {})
 
 
 KEYWORDS = ["true", "false", "Infinity", "NaN", "__LINE__", "__FILE__", "__FUNC__", "__CLASS__", "def", "fun", "while", "for", "if", "else", "auto",
@@ -354,7 +365,7 @@ def main(tier):
     bins = vlib.ensure_built("runner", "collide")
     ev = vlib.Evidence(PID, tier)
     ev.cov["rule"] = RULE
-    ev.assumptions = ["LP64 widths (int 32, long = long long 64); long and long long are not distinguished (same width and signedness)",
+    ev.assumptions = ["LP64 widths (int 32, long = long long 64); the exact C++ type (long vs long long) of integer literals is compared",
                       "float tolerance 16 ulp of the target type; expected values from numpy longdouble / Python float (correctly rounded)",
                       "hex escapes take at most two digits (documented ChaiScript deviation); ${...} interpolation is only generated as ${1}"]
     confirmed = []
@@ -373,8 +384,8 @@ def main(tier):
             pass
 
     n_int = 0
-    for text, v, t in int_grid():
-        run_det({"part": "int", "text": text, "value": v, "type": t})
+    for text, v, t, ct in int_grid():
+        run_det({"part": "int", "text": text, "value": v, "type": t, "ctype": ct})
         n_int += 1
         if v >= 127:
             ev.nontrivial(("int", text))
@@ -389,7 +400,7 @@ def main(tier):
         v = rng.getrandbits(rng.choice((5, 16, 31, 32, 33, 62, 63, 64)))
         t = expected_int(v, base == 10, sfx)
         if t is not None:
-            run_det({"part": "int", "text": spell(v, base) + sfx, "value": v, "type": t})
+            run_det({"part": "int", "text": spell(v, base) + sfx, "value": v, "type": t, "ctype": expected_ctype(v, base == 10, sfx)})
             ev.nontrivial(("int", spell(v, base) + sfx))
     for src, want in word_literal_cases():
         ev.count("evaluations")
